@@ -14,9 +14,13 @@ from .calib_util import FloatSpec, f2b, fl, num, vals, cvals, err, quiet, RTOL
 
 SPEC_TOL = 1e-10       # model vs implementation, spectra / waveforms (relative to the largest magnitude)
 P_TOL = 1e-9           # property tolerance (relative on A, rad on p)
+# model's cosine-sum window (lean CosWindow.window) vs scipy.signal.get_window, absolute.  Measured on the unchanged
+# library: bit-identical (difference 0.0) for all four windows over every n in 2..299 and 600 random n up to 4096;
+# 1e-14 allows a few ulps of a different libm cos per term and is 5 orders below the last digit of SciPy's coefficients.
+WIN_TOL = 1e-14
 # full main-lobe width (null to null) in bins of SciPy's periodic cosine-sum windows
-LOBE = {None: 0, 'hann': 4, 'hamming': 4, 'blackman': 6, 'flattop': 10}
-WINDOWS = [None, 'hann', 'hamming', 'flattop', 'blackman']
+LOBE = {None: 0, 'hann': 4, 'hamming': 4, 'blackman': 6, 'flattop': 10, 'nuttall': 8, 'blackmanharris': 8}
+WINDOWS = [None, 'hann', 'hamming', 'flattop', 'blackman', 'nuttall', 'blackmanharris']
 
 
 def get_window(name, n):
@@ -90,17 +94,20 @@ class C16(FloatSpec):
         'proof is over the real / complex numbers: floating-point round-off is NOT bounded by a theorem; the Float '
         'instance of the same definitions is compared with psiaudio.util on every run (1e-10 of the largest magnitude)',
         'modelled, not verified: np.fft.rfft / irfft = the DFT sum and its real inverse (imaginary parts of the DC '
-        'and Nyquist bins ignored); scipy.signal.get_window values are inputs; np.mean, np.abs, np.angle',
+        'and Nyquist bins ignored); np.mean, np.abs, np.angle; scipy.signal.get_window(name, n) for hann / hamming / '
+        'blackman / flattop is transcribed (periodic cosine sum, SciPy coefficient tables) and its values are compared '
+        'with the real get_window on every windowed case (1e-14 absolute; measured difference 0)',
         'detrend (scipy.signal.detrend) is not modelled: the identities are stated for detrend=None; the default '
         "detrend='linear' is exercised by the oracle with the tolerance 1/k^2 it can reach on a whole-cycle tone",
         'np.unwrap in util.phase is not modelled (phase compared with unwrap=False)',
     ]
     ASSUMPTIONS = ['csd_to_signal inversion is claimed for even lengths only (the function has no length argument)',
-                   'tone law with a window is claimed for bins farther than the full main-lobe width '
-                   '(hann/hamming 4, blackman 6, flattop 10 bins) from DC and Nyquist']
+                   'tone law with a window is claimed (oracle) for bins farther than the full main-lobe width '
+                   '(hann/hamming 4, blackman 6, flattop 10, nuttall/blackmanharris 8 bins) from DC and Nyquist; the theorem '
+                   'csd_window_tone covers the larger range M < k < n/2 - M (M = 1, 1, 2, 4, 3, 3)']
     RULE = ('whole-cycle tones: every length 8..40 x every bin (no window) plus seeded random lengths (even/odd) up to '
             '4096 x random bin, amplitude 1e-3..1e3, phase in (-3.1, 3.1), fs, window in {None, hann, hamming, flattop, '
-            'blackman}, averages 1..8 with 0..avg-1 trailing samples; seeded Gaussian signals with the same grids and '
+            'blackman, nuttall, blackmanharris}, averages 1..8 with 0..avg-1 trailing samples; seeded Gaussian signals with the same grids and '
             'batch shapes; level helpers on random values and arrays. A case is non-trivial when the signal is not '
             'constant; distinct = distinct case hash.')
     exhaustive_note = {
@@ -168,13 +175,15 @@ class C16(FloatSpec):
         n = c['n']
         w = c['window']
         ks, kspec = bins_of(c)
-        L = [f'sig {fl(s)}', 'win none' if w is None else f'win {fl(get_window(w, n))}', f'csd {kspec}']
+        # named windows are generated by the model itself (CosWindow.window, the object of theorem csd_window_tone) and
+        # its values are compared with scipy.signal.get_window(name, n) below
+        L = [f'sig {fl(s)}', 'win none' if w is None else f'cwin {w} {n}', f'csd {kspec}']
         L.append('rms')
         if c['kind'] == 'tone':
             f = c['k'] * c['fs'] / n
             L.append(f"csd {c['k']}")          # the tone's own bin (oracle target)
-            if w is None:
-                L += [f"toneconv {f2b(c['fs'])} {f2b(f)}", f"tonepower {f2b(c['fs'])} {f2b(f)}"]
+            # single-frequency estimator, through the window in force (toneConv / toneConvW of the model)
+            L += [f"toneconv {f2b(c['fs'])} {f2b(f)}", f"tonepower {f2b(c['fs'])} {f2b(f)}"]
         if w is None and n <= 256:
             L.append(f'phase {self.phase_bins(c, s)}')
         if n % 2 == 0 and n <= 512:
@@ -214,14 +223,14 @@ class C16(FloatSpec):
         n, w, fs = c['n'], c['window'], c['fs']
         ks, _ = bins_of(c)
         z = util.csd(s, window=w, detrend=None)
-        R = [('ok',), ('ok',), cvals(z[ks], SPEC_TOL), num(util.rms(s), 1e-11)]
+        R = [('ok',), ('ok',) if w is None else vals(get_window(w, n), 0.0, WIN_TOL), cvals(z[ks], SPEC_TOL),
+             num(util.rms(s), 1e-11)]
         if c['kind'] == 'tone':
             f = c['k'] * fs / n
             R.append(cvals([z[c['k']]], SPEC_TOL))
-            if w is None:
-                R += [cvals([util.tone_conv(s, fs, f, detrend=None)], SPEC_TOL * max(1.0, n / 64)),
-                      num(util.tone_power_conv(s, fs, f, detrend=None), SPEC_TOL * max(1.0, n / 64),
-                          SPEC_TOL * c['A'] * max(1.0, n / 64))]
+            R += [cvals([util.tone_conv(s, fs, f, window=w, detrend=None)], SPEC_TOL * max(1.0, n / 64)),
+                  num(util.tone_power_conv(s, fs, f, window=w, detrend=None), SPEC_TOL * max(1.0, n / 64),
+                      SPEC_TOL * c['A'] * max(1.0, n / 64))]
         if w is None and n <= 256:
             pb = self.phase_bins(c, s)
             idx = [int(v) for v in pb.split(',')] if pb != '-' else []
